@@ -159,3 +159,49 @@ func TestC13(t *testing.T) {
 }
 
 var _ = fmt.Sprint
+
+// ---------------------------------------------------------------- C01
+
+func c01Opts() bridge.GenOpts {
+	o := poolOpts
+	o.Bursts = false
+	o.NoFunds = true
+	o.BigAmounts = true
+	o.Holders = true
+	o.Weights = map[string]int{"deposit": 16, "transfer": 14, "send": 26, "xexec": 14, "cancel": 8, "send2": 3}
+	o.TimeoutMs = []uint64{20000, 60000, 86400000 - 1}
+	return o
+}
+
+func TestC01(t *testing.T) {
+	(&pbt.Check{
+		ID:   "C01",
+		Rule: "whole-bridge histories in which hub users own nothing but what external deposits brought in: deposits and cross-chain transfers of any amount/fee/destination (decimals 0..24, commissions, holder discounts), sends, cancels, batch requests, executions, timeouts, expiry; after every step supply + in-flight - executed-but-unobserved <= custody in exact rationals; non-trivial = >=1 applied deposit with fee>0 or decimals!=18, >=1 executed batch and >=1 cancel/expiry/timeout; distinct = distinct case JSON",
+		Gen:  bridge.GenCase(c01Opts()),
+		New:  func() interface{} { return &bridge.Case{} },
+		Run: func(ci interface{}, rec *pbt.Rec) *pbt.Failure {
+			c := ci.(*bridge.Case)
+			sv := &bridge.Solvency{}
+			pl := bridge.NewPlacement()
+			it := bridge.NewInterp(c, "C01", sv, pl)
+			it.NoHash = true
+			f := it.Run()
+			odd := false
+			for _, tk := range c.Cfg.Tokens {
+				if tk.Decimals != 18 {
+					odd = true
+				}
+			}
+			rec.NonTrivial = (it.Stats["transfer"] > 0 || (odd && it.Stats["deposit"] > 0)) && it.Stats["exec-batch"] > 0 && (it.Stats["cancel-ok"] > 0 || pl.Returned > 0)
+			labelStats(rec, it, "deposit", "transfer", "exec-batch", "cancel-ok", "send-ok")
+			if pl.Returned > 0 {
+				rec.Label("batch-timeout-or-older-cancel")
+			}
+			if it.FailedProp() != "" {
+				rec.Label("stopped-by:" + it.FailedKey())
+			}
+			return f
+		},
+		Assumptions: []string{"custody is what the abstract external chains hold: deposits lock exactly the event's amount (as Hub2.transferToChain and the Minter multisig do), executed batches pay out the amounts of their members (Hub2.submitBatch and the Minter multisend transfer amounts only; fees stay in custody)", "governance-initiated cold-storage transfers and token-info changes are outside the quantifier"},
+	}).Main(t)
+}
